@@ -329,6 +329,10 @@ def _o_c03(x) -> bool:
             return False  # reached the destination this step without a drop-off event
     elif len(drop) != 0 and not (picked and onboard2 == "r0" and len(st2.route) == 0):
         return False
+    if picked and onboard2 == "r0" and len(st2.route) == 0 and len(drop) != 1:
+        # picked up where the trip also ends: the vehicle is at the destination with nothing left to drive, so the drop-off
+        # belongs to this step (the next step only leaves the activity -- and must not drop off a second time)
+        return False
     return True
 
 
